@@ -86,6 +86,10 @@ def QUERIES(tier):
     qs = {
         'u-vcpu-disk': Query({'': G({'VCPU': None, 'DISK_GB': None})}),
         'u-req': Query({'': G({'VCPU': None}, req=[[T1]])}),
+        # a class only the sharing provider offers: the same placement is
+        # reachable from every anchor it serves
+        'u-disk': Query({'': G({'DISK_GB': None})}),
+        '1-disk': Query({'_1': G({'DISK_GB': None})}),
         'u-forb': Query({'': G({'VCPU': None, 'DISK_GB': None},
                                forb=[T1])}),
         'u+1-none': Query({'': G({'VCPU': None}),
@@ -196,6 +200,8 @@ QUICK = [('flat', 'u-vcpu-disk', False), ('tree-t', 'u-req', False),
          ('two-t', 'A+B0-req-intree', False)]
 
 THOROUGH_EXTRA = [
+    ('flat', 'u-disk', False), ('flat', '1-disk', False),
+    ('tree', 'u-disk', False),
     ('two-t', 'A+B0-intree-only', False), ('two-t', 'A+B0-forb-only', False),
     ('two-t', 'A+B0-req', False), ('tree-t', 'A+B0-req', False),
     ('numa', 'A+B+C-2subtrees-rev', False), ('numa', '1+2-subtree', False),
